@@ -94,6 +94,16 @@ SPECS = {
         exhaustive={"quick": False, "thorough": False},
         partial=["rendering stage proved for all validator values (C11_*_chain, escape_exact); scanner stage proved on instances, exclusion classes K11b-K11g are known findings"],
     ),
+    "C01": dict(groups=["project"], only_oracles=["c01_parses_types", "c01_parses_commands", "c01_parses_events", "c01_parses_index"],
+        excluded_classes=["undocumentedItemShape", "emptyEnum", "duplicateCommandNames", "duplicateTypeNames", "K02e_nameClash", "K12c_listenerNameClash"],
+        theorems="Typegen.Theorems.C01",
+        trusted_base=[LEAN_TB, HARNESS_TB,
+                      "the recogniser Sx.parsesAsModule (tokeniser + grammar of the emitted subset, documented next to the TypeScript productions it instantiates) is the *definition* of 'parses as a TypeScript module' here: no TypeScript compiler is available offline; it is a sub-grammar (accept => valid) and function bodies are accepted as balanced token sequences",
+                      "project-level tie as for C03: all four file texts equal the model's modulo whitespace on every case"],
+        assumptions=["identifiers are ASCII; the fixed template text is trusted to be TypeScript once every hole is of its category (validated by running the recogniser on every real file)"],
+        rule="as C03 (random projects, safe + adversarial streams, both modes); the adversarial stream adds reserved-word / raw-identifier command names, kebab-case containers, renames with `-`, spaces and quotes; every real file is tokenised and parsed; non-trivial = project with >=1 command; distinct = hash of (IR, configuration)",
+        exhaustive={"quick": False, "thorough": False},
+        partial=["hole well-formedness proved (string literals for all Unicode, function/type/listener identifier characters); skeleton validity rests on the recogniser, run per case"]),
     "C03": dict(groups=["project"], only_oracles=["c03_wrappers"], excluded_classes=['unsupportedType', 'undefinedNamedType', 'undocumentedItemShape', 'duplicateTypeNames', 'duplicateCommandNames', 'K18a_mappedAndDefined', 'K01a_reservedOrIllegalFnName'], theorems="Typegen.Theorems.C03",
         trusted_base=[LEAN_TB, HARNESS_TB,
                       "project-level tie: the harness renders a project IR to Rust source files, runs the real CommandAnalyzer + generators on them and hands the IR (annotated with the token text proc_macro2 prints for every attribute and the generic tree of every type) to the Lean model; compared: the whole analysis (commands, parameters, channels, events, discovered types, dependency sets) and the text of all four generated files modulo whitespace and the header comment",
